@@ -1993,13 +1993,16 @@ def flag_bits(ck, prog):
                     if not (isinstance(a, dict) and isinstance(b2, dict)):
                         continue
                     if b2.get('k') == 'int' and b2.get('name') and a.get('k') in ('ref', 'member'):
-                        groups.setdefault(estr(a), {}).setdefault(b2['name'], (b2['v'], line))
+                        # two locals of the same name in different scopes are different words
+                        word = estr(a) if a.get('k') != 'ref' else '%s#%s' % (estr(a), a.get('id'))
+                        groups.setdefault(word, {}).setdefault(b2['name'], (b2['v'], line))
         for word, names in groups.items():
             # flags are single bits; multi-bit constants are field masks (e.g. the wait-status macros) and are
             # not compared here
             items = sorted((nm, vl) for nm, vl in names.items() if vl[0] & (vl[0] - 1) == 0)
             if len(items) < 2:
                 continue
+            word = word.split('#')[0]
             for nm, (v, line) in items:
                 n += 1
                 key = '%s:%s:%s' % (f.name, word, nm)
